@@ -209,6 +209,14 @@ Definition count_label (f : plabel -> bool) (ls : list plabel) : nat := length (
 Definition is_stop l := match l with Stop => true | _ => false end.
 Definition is_backoff l := match l with Backoff => true | _ => false end.
 
+(* When may the oracle say Stop?  post() creates a fresh ExponentialBackOff for every request
+   (`b := backoff.NewExponentialBackOff(); b.MaxElapsedTime = hfh.maxRequestElapsedTime`), whose
+   NextBackOff returns Stop iff `MaxElapsedTime != 0 && elapsed > MaxElapsedTime`, elapsed being measured
+   from that creation, i.e. from just before the request's own first attempt (window -1 = retries
+   disabled: always Stop; the constructor rejects 0).  Times in nanoseconds. *)
+Definition stop_allowed (window elapsed : Z) : bool :=
+  negb (window =? 0)%Z && (window <? elapsed)%Z.
+
 Definition in_flight (s : pstate) : nat :=
   match p_phase s with PTry | PFailed => 1 | _ => 0 end.
 
